@@ -1,3 +1,58 @@
 // harnesses for crate::byteorder (child module: sees private items)
 #![allow(dead_code, unused_imports)]
 use super::*;
+use crate::verif_k::vk_assert;
+
+// contract (all values): the byte image of a sample is its two's-complement value at the sample's byte width in the
+// stated byte order; to_bytes/from_bytes are mutual inverses; 24-bit values are sign-extended from bit 23
+macro_rules! k_endian {
+    ($name:ident, $e:ty, $le:expr) => {
+        #[kani::proof]
+        pub(crate) fn $name() {
+            let a: i8 = kani::any();
+            vk_assert!(<$e>::i8_to_bytes(a) == [a as u8] && <$e>::bytes_to_i8([a as u8]) == a, "8-bit samples are one two's-complement byte");
+            let b: i16 = kani::any();
+            let bb = <$e>::i16_to_bytes(b);
+            vk_assert!(bb == if $le { b.to_le_bytes() } else { b.to_be_bytes() } && <$e>::bytes_to_i16(bb) == b, "16-bit samples in the stated byte order, invertible");
+            let c: i32 = kani::any();
+            kani::assume(c >= -(1 << 23) && c < (1 << 23));
+            let cb = <$e>::i24_to_bytes(c);
+            let full = (c as u32) & 0xFF_FFFF;
+            let want = if $le { [full as u8, (full >> 8) as u8, (full >> 16) as u8] } else { [(full >> 16) as u8, (full >> 8) as u8, full as u8] };
+            vk_assert!(cb == want && <$e>::bytes_to_i24(cb) == c, "24-bit samples: low three two's-complement bytes in the stated order, sign-extended on the way back");
+            let raw: [u8; 3] = kani::any();
+            let v = <$e>::bytes_to_i24(raw);
+            vk_assert!(v >= -(1 << 23) && v < (1 << 23) && <$e>::i24_to_bytes(v) == raw, "every 3-byte pattern is a 24-bit sample");
+            let d: i32 = kani::any();
+            let db = <$e>::i32_to_bytes(d);
+            vk_assert!(db == if $le { d.to_le_bytes() } else { d.to_be_bytes() } && <$e>::bytes_to_i32(db) == d, "32-bit samples in the stated byte order, invertible");
+        }
+    };
+}
+k_endian!(k_little_endian_samples, LittleEndian, true);
+k_endian!(k_big_endian_samples, BigEndian, false);
+
+// contract: bytes_to_le / bytes_to_be reverse each sample of the given width, or do nothing when already in that order
+#[kani::proof]
+#[kani::unwind(8)]
+pub(crate) fn k_byte_order_swap() {
+    let orig: [u8; 6] = kani::any();
+    let w: usize = kani::any();
+    kani::assume(w == 1 || w == 2 || w == 3);
+    let mut a = orig;
+    LittleEndian::bytes_to_le(&mut a, w);
+    vk_assert!(a == orig, "little-endian data is already little-endian");
+    let mut b = orig;
+    BigEndian::bytes_to_be(&mut b, w);
+    vk_assert!(b == orig, "big-endian data is already big-endian");
+    let mut c = orig;
+    BigEndian::bytes_to_le(&mut c, w);
+    let mut d = orig;
+    LittleEndian::bytes_to_be(&mut d, w);
+    let mut i = 0;
+    while i < 6 {
+        let j = (i / w) * w + (w - 1 - i % w);
+        vk_assert!(c[i] == orig[j] && d[i] == orig[j], "changing byte order reverses the bytes of every sample");
+        i += 1;
+    }
+}
